@@ -295,6 +295,10 @@ NONPLAIN = [
     "lambda e: sum(e.jets.Select(lambda j, *x: j.pt + len(x))) + x",
     "lambda e: sum(e.jets.Select(lambda j, x=3: j.pt + x)) + x",
     "lambda e: [(lambda *x: len(x))(j.pt, y) for j in e.jets]",
+    # FC8: default expressions belong to the enclosing scope, also when the parameter has the captured name
+    "lambda e: (lambda q, x=x: q + x)(e.a)",
+    "lambda e: (lambda q, *, x=x + y: q + x)(e.a) + x",
+    "lambda e: sum(e.jets.Select(lambda j, x=x: j.pt + x))",
 ]
 
 
